@@ -120,6 +120,30 @@ pub fn hand_tables() -> Vec<Table> {
     ]
 }
 
+/// Long texts for the hand tables: one word (bare, after a space, after another letter) made of a
+/// short pattern repeated up to a byte length just below, at and just above 2^8 and 2^10 (thorough:
+/// also 2^12) -- behaviour that changes at a size threshold (chunking, a fast path for short words)
+/// is out of reach of the exhaustive short strings.
+pub fn long_texts(quick: bool) -> Vec<String> {
+    let mut lens = vec![255usize, 256, 257, 1023, 1024, 1025];
+    if !quick {
+        lens.extend([4095, 4096, 4097]);
+    }
+    let mut out = vec![];
+    for l in lens {
+        for pattern in ["ab", "abc", "a", "ä", "ba"] {
+            for lead in ["", " ", "b", "x "] {
+                let mut t = lead.to_string();
+                while t.len() + pattern.len() <= l {
+                    t.push_str(pattern);
+                }
+                out.push(t);
+            }
+        }
+    }
+    out
+}
+
 /// Training corpora: every clean one-line corpus over {a, b, ' '} with exactly 6 symbols that has at
 /// least two words, plus hand-written multi-line corpora that use c and ä.
 pub fn corpora() -> Vec<Vec<String>> {
@@ -664,6 +688,17 @@ fn run_table(
             run_strings(run, oracle, &b, strs, max_len, buf);
             if main && (origin.starts_with("F3") || full.len() <= 1) {
                 run_strings(run, oracle, &b, ws_strs, WS_MAX_LEN, buf);
+            }
+            // long words: lengths around the powers of two a size threshold would sit at
+            if main && origin.starts_with("F3") {
+                let ids = refs::table_ids(&b.eff);
+                for text in long_texts(run.quick()) {
+                    let (rids, merges, depth, per_word) = refs::bpe_encode(&text, &ids);
+                    run.evaluations += 1;
+                    run.count("long-text cases");
+                    oracle.check(run, &b, &text, &Expect { ids: &rids, merges, depth, per_word, single_token: None });
+                }
+                run.tick();
             }
             // trained tables: the training words themselves
             if let (true, Some(lines)) = (main, corpus) {
